@@ -29,7 +29,10 @@ RULE = ("seeded annotated sequences (1-4 features x 1-4 locations, both strands,
         "down to -25, sequence starts 1-50, lengths 0-14) through Annotation[a:b], AnnotatedSequence[a:b]/[a:]/[:b]/[:], "
         "[int], [Feature] read and write, reverse_complement twice, copy-then-mutate; every op line is compared with the "
         "Lean model and checked by a per-base/string-slicing oracle. non-trivial = at least one location is cut, dropped, "
-        "read or written, or an error branch is hit; distinct = different op lines. thorough adds the exhaustive "
+        "read or written, or an error branch is hit; distinct = different op lines. A history stream reuses ONE object through "
+        "reads, in-place edits and refused calls (each read also compared with a fresh object of the same content, each refused "
+        "call with a snapshot); every case spells its integer/array/container arguments in one of 420 ways (NumPy scalars of "
+        "several widths, list/tuple/set, str/array values, defaults left out). thorough adds the exhaustive "
         "single/double-location enumeration over sequences of length <= 6.")
 TRUSTED = ["numpy basic slicing / slice assignment (incl. length-1 broadcast) and Python's stable sorted() modelled by their documented semantics",
            "set/frozenset iteration order is unobservable: the canonical form sorts and de-duplicates"]
